@@ -1,7 +1,7 @@
 -------------------------- MODULE Export_Signature --------------------------
 EXTENDS Signature, Json, SequencesExt
 CONSTANTS ScenOut, MaxParams
-Rec(s) == [params |-> s.params, results |-> s.results, use |-> s.use, layout |-> s.layout, place |-> s.place, valid |-> Valid(Eff(s))]
+Rec(s) == [params |-> s.params, results |-> s.results, use |-> s.use, layout |-> s.layout, place |-> s.place, valid |-> ValidX(s)]
 ASSUME ndJsonSerialize(ScenOut, SetToSeq({Rec(s) : s \in Sigs(MaxParams) \cup ExtSigs}))
 ASSUME PrintT(<<"exported", Cardinality(Sigs(MaxParams) \cup ExtSigs)>>)
 VARIABLE x
